@@ -4,8 +4,10 @@ import (
 	"bytes"
 	"encoding/binary"
 	"github.com/LemoFoundationLtd/lemochain-core/common/rlp"
+	"github.com/LemoFoundationLtd/lemochain-core/common/verifhook"
 	"io"
 	"os"
+	"path/filepath"
 	"time"
 )
 
@@ -96,6 +98,10 @@ func FileUtilsFlush(path string, offset int64, data []byte) (int64, error) {
 		return -1, err
 	}
 
+	if verifhook.Enabled {
+		verifhook.Point("flush:before-write:" + filepath.Base(path))
+		data = verifhook.Tear("flush:write:"+filepath.Base(path), data)
+	}
 	n, err := file.Write(data)
 	if err != nil {
 		return -1, err
@@ -105,9 +111,15 @@ func FileUtilsFlush(path string, offset int64, data []byte) (int64, error) {
 		panic("n != len(data)")
 	}
 
+	if verifhook.Enabled {
+		verifhook.Point("flush:before-sync:" + filepath.Base(path))
+	}
 	err = file.Sync()
 	if err != nil {
 		return -1, err
+	}
+	if verifhook.Enabled {
+		verifhook.Point("flush:after-sync:" + filepath.Base(path))
 	}
 
 	return int64(n), nil
